@@ -6,6 +6,7 @@ import (
 	"fmt"
 	"os"
 	"path/filepath"
+	"sort"
 	"strconv"
 	"strings"
 
@@ -485,12 +486,27 @@ func parseSingle(path string) {
 		}
 	case "1259":
 		fmt.Println("pg_class:")
-		for _, t := range pgdump.ParsePGClass(data) {
+		// print in filenode / relation oid order: map iteration order is random
+		tables := pgdump.ParsePGClass(data)
+		filenodes := make([]uint32, 0, len(tables))
+		for fn := range tables {
+			filenodes = append(filenodes, fn)
+		}
+		sort.Slice(filenodes, func(i, j int) bool { return filenodes[i] < filenodes[j] })
+		for _, fn := range filenodes {
+			t := tables[fn]
 			fmt.Printf("  %s (OID %d, filenode %d, kind %s)\n", t.Name, t.OID, t.Filenode, t.Kind)
 		}
 	case "1249":
 		fmt.Println("pg_attribute:")
-		for relid, cols := range pgdump.ParsePGAttribute(data, 0) {
+		attrs := pgdump.ParsePGAttribute(data, 0)
+		relids := make([]uint32, 0, len(attrs))
+		for relid := range attrs {
+			relids = append(relids, relid)
+		}
+		sort.Slice(relids, func(i, j int) bool { return relids[i] < relids[j] })
+		for _, relid := range relids {
+			cols := attrs[relid]
 			fmt.Printf("  relation %d:\n", relid)
 			for _, c := range cols {
 				fmt.Printf("    %d: %s (%s)\n", c.Num, c.Name, pgdump.TypeName(c.TypID))
